@@ -681,14 +681,18 @@ impl<S: BitmapSlice + Send + Sync> FileSystem for PassthroughFs<S> {
             let ino = entry.inode;
             dir_entry.ino = entry.attr.st_ino;
 
-            add_entry(dir_entry, entry).inspect(|&r| {
-                // true when size is not large enough to hold entry.
-                if r == 0 {
+            let res = add_entry(dir_entry, entry);
+            match res {
+                Ok(n) if n > 0 => {}
+                // The entry was not delivered: the size is not large enough to hold it
+                // (Ok(0)) or adding it failed.
+                _ => {
                     // Release the refcount acquired by self.do_lookup().
                     let mut inodes = self.inode_map.get_map_mut();
                     self.forget_one(&mut inodes, ino, 1);
                 }
-            })
+            }
+            res
         })
     }
 
